@@ -4,7 +4,7 @@
      the repairs of C13-F2/F3/F4
      (file KEY LIB VER WSTD UNMERGED ELEMDOM ((LONG ((ATTR (VAL..))..))..))
      (load FIXED H (T..)) (resolve H T) (getent H NAME NS) (twa H required|unique) (grp H (T..)) (cap FIXED H T) (flag H)
-     (entries H I) (dups H I) (contains HB HL) (reid HA HB T) *)
+     (entries H I) (dups H I) (contains HB HL) (reid HA HB T) (span H T) *)
 let exn_sx (e : exn) : sx = A (match e with
   | TypeError -> "TypeError" | KeyError -> "KeyError" | AttributeError -> "AttributeError"
   | ValueError -> "ValueError" | IndexError -> "IndexError" | RecursionError -> "RecursionError"
@@ -108,6 +108,18 @@ let () = main_loop (fun x ->
       let (rb, iss) = reidentify (cfg_of (get_handle hb)) txt ra in
       L [(match rb.rt_entry with Some e -> L [A "1"; str_sx e.en_name] | None -> L [A "0"]);
          str_sx (ext_value rb); L (List.map code_sx iss); str_sx (tag_text txt ra)]
+  | L [A "span"; A h; t] ->
+      (* place of the INVALID_PARENT_NODE issue of tag text t under the loaded schemas *)
+      let txt = sx_str t in
+      let ns = get_schema_namespace txt in
+      (match List.find_opt (fun l -> l.l_ns = ns) (get_handle h) with
+       | None -> A "none"
+       | Some l ->
+           let rec drop n x = if n = 0 then x else (match x with [] -> [] | _ :: r -> drop (n - 1) r) in
+           let nl = List.length ns in
+           (match invalid_parent_span l.l_table (drop nl txt) (nat_of_int nl) with
+            | Some (a, b) -> L [nat_sx a; nat_sx b]
+            | None -> A "none"))
   | L [A "contains"; A hb; A hl] ->
       let b = List.hd (get_handle hb) and l = List.hd (get_handle hl) in
       bool_sx (contains_standard b.l_table l.l_table)
